@@ -288,17 +288,18 @@ theorem popToTag_inv (nm : Names) (deep name : Nat) (s : PState) (h : Inv nm s) 
     simp only [call]; exact ⟨this.1, by omega⟩
   · simp [h, call]
 
-theorem pushTag_inv (nm : Names) (name : Nat) (s : PState) (h : Inv nm s) : Inv nm (pushTag nm name s) := by
+theorem pushTag_inv (nm : Names) (h0 : nm.outermostOnly = false) (name : Nat) (s : PState) (h : Inv nm s) :
+    Inv nm (pushTag nm name s) := by
   obtain ⟨h1, h2⟩ := h
   unfold pushTag Inv
-  simp only [List.filter_cons]
+  simp only [List.filter_cons, h0, Bool.not_false, Bool.true_or, Bool.and_true]
   constructor
   · split <;> simp_all
   · split <;> simp_all
 
 theorem endDataDepth_eq (s : PState) : endDataDepth s = 4 := by simp [endDataDepth, loop0_eq, call]
 
-theorem step_inv (nm : Names) (deep : Nat) (s : PState) (e : Ev) (h : Inv nm s) :
+theorem step_inv (nm : Names) (h0 : nm.outermostOnly = false) (deep : Nat) (s : PState) (e : Ev) (h : Inv nm s) :
     Inv nm (step nm deep s e).1 ∧ (step nm deep s e).2 ≤ 11 := by
   cases e with
   | text => simp [step, h, cTokenizer, call]
@@ -307,19 +308,19 @@ theorem step_inv (nm : Names) (deep : Nat) (s : PState) (e : Ev) (h : Inv nm s) 
     simp only [step, endDataDepth_eq, cTokenizer, call]
     exact ⟨this.1, by omega⟩
   | «open» name void =>
-    have hp := pushTag_inv nm name s h
+    have hp := pushTag_inv nm h0 name s h
     have := popToTag_inv nm deep name (pushTag nm name s) hp
     simp only [step, endDataDepth_eq, cTokenizer, cTagInit, call]
     split
     · exact ⟨this.1, by omega⟩
     · exact ⟨hp, by omega⟩
 
-theorem run_inv (nm : Names) (deep : Nat) (evs : List Ev) (s : PState) (h : Inv nm s) :
+theorem run_inv (nm : Names) (h0 : nm.outermostOnly = false) (deep : Nat) (evs : List Ev) (s : PState) (h : Inv nm s) :
     Inv nm (run nm deep s evs).1 ∧ (run nm deep s evs).2 ≤ 11 := by
   induction evs generalizing s with
   | nil => simp [run, h]
   | cons e es ih =>
-    have h1 := step_inv nm deep s e h
+    have h1 := step_inv nm h0 deep s e h
     have h2 := ih (step nm deep s e).1 h1.1
     simp only [run]
     exact ⟨h2.1, by have := h1.2; have := h2.2; omega⟩
@@ -337,9 +338,9 @@ theorem popAll_le (nm : Names) (deep : Nat) (fuel : Nat) (s : PState) (h : Inv n
       have := hp.2.1
       simp only; omega
 
-theorem feedDepth_le (nm : Names) (deep : Nat) (evs : List Ev) : feedDepth nm deep evs ≤ 12 := by
-  have h0 : Inv nm initState := by simp [Inv, initState]
-  have hr := run_inv nm deep evs initState h0
+theorem feedDepth_le (nm : Names) (h0 : nm.outermostOnly = false) (deep : Nat) (evs : List Ev) : feedDepth nm deep evs ≤ 12 := by
+  have hI : Inv nm initState := by simp [Inv, initState]
+  have hr := run_inv nm h0 deep evs initState hI
   have hp := popAll_le nm deep (run nm deep initState evs).1.stack.length (run nm deep initState evs).1 hr.1
   simp only [feedDepth, endDataDepth_eq, call]
   have := hr.2
